@@ -80,6 +80,9 @@ pub fn run_c06(tier: Tier, seed: u64, index: u64, scratch: &Scratch, rec: &mut R
             base.step_name = Some(gen::simple_name(&mut er));
         }
     }
+    // every other world: all cells on the worker's long-lived verifier thread (thread-local state of the
+    // library carries over from cell to cell)
+    base.same_thread = Rng::stream(seed, "thread-mode").chance(1, 2);
     let far = "9999-12-31T23:59:59Z";
     // the fault-free world (all expiries far in the future) must be accepted
     let mut b = base.clone();
@@ -218,6 +221,7 @@ pub fn run_c08(tier: Tier, seed: u64, index: u64, scratch: &Scratch, rec: &mut R
         ..GenOpts::default()
     };
     let (mut base, plan) = gen::baseline(seed, &opts);
+    base.same_thread = Rng::stream(seed, "thread-mode").chance(1, 2);
     // inspection rules: products of the inspection must not contain a file named "forbidden"
     for i in base.root.layout.inspect.iter_mut() {
         i.exp_prod = vec![vec!["DISALLOW".into(), "forbidden".into()]];
